@@ -257,11 +257,11 @@ fn fnv64(s: &str) -> u64 {
 pub fn leaf_texts(tier: &str) -> Vec<String> {
     let (bv, tv): (Vec<&str>, Vec<&str>) = match tier {
         "thorough" => (
-            vec!["1.0.0", "1.0.1", "2.0.0", "1.0.0-a", "1.0.0-a.0", "2.0.0-0"],
+            vec!["1.0.0", "1.0.1", "2.0.0", "1.0.0-a", "1.0.0-a.0", "2.0.0-0", "1.0.0-0.a"],
             vec!["1.0.0", "2.0.0", "1.0.0-a"],
         ),
         "tiny" => (vec!["1.0.0", "2.0.0"], vec!["1.0.0"]),
-        _ => (vec!["1.0.0", "2.0.0", "1.0.0-a"], vec!["1.0.0", "2.0.0"]),
+        _ => (vec!["1.0.0", "2.0.0", "1.0.0-a", "2.0.0-0.a"], vec!["1.0.0", "2.0.0"]),
     };
     let mut out: Vec<String> = vec![];
     for v in &bv {
